@@ -149,6 +149,14 @@ impl Group {
     pub fn raw_member(&self, a: &str) -> Option<u64> {
         self.w.store.data.get(&cw4::member_key(a)).and_then(|v| from_json::<u64>(v).ok())
     }
+    /// read through the client-side helper the repository ships (packages/cw4 `Cw4Contract`): the very functions
+    /// other contracts (cw3-flex-multisig) use for their cross-contract reads
+    pub fn via_helper<T>(&self, f: impl FnOnce(&cw4::Cw4Contract, &cosmwasm_std::QuerierWrapper) -> cosmwasm_std::StdResult<T>) -> Option<T> {
+        let router = crate::direct::Router { w: &self.w, smart: |d, e, m| cw4_group::contract::query(d, e, cosmwasm_std::from_json(m)?) };
+        let q = cosmwasm_std::QuerierWrapper::new(&router);
+        f(&cw4::Cw4Contract::new(self.w.contract.clone()), &q).ok()
+    }
+
     pub fn snap(&self) -> Snap {
         Snap {
             admin: self.admin(),
